@@ -72,7 +72,7 @@ def theory_classes():
 def random_pars(rng, al0g_max=1.34, small_pw=True):
     """model parameters inside the quantifier of C04 / C05"""
     w = 0.3 if small_pw else 1.0
-    return dict(
+    d = dict(
         ns=rng.uniform(0.01, 0.59), al0s=rng.uniform(1.0, 1.3), al0g=rng.uniform(1.0, al0g_max),
         alps=rng.uniform(0, 0.3), alpg=rng.uniform(0, 0.3), ms2=rng.uniform(0.3, 1.5), mg2=rng.uniform(0.3, 1.5),
         secs=rng.uniform(-w, w), secg=rng.uniform(-w, w), this=rng.uniform(-w / 3, w / 3), thig=rng.uniform(-w / 3, w / 3),
@@ -81,6 +81,15 @@ def random_pars(rng, al0g_max=1.34, small_pw=True):
         Ealps=rng.uniform(0, 0.3), Ealpg=rng.uniform(0, 0.3), Ems2=rng.uniform(0.3, 1.5), Emg2=rng.uniform(0.3, 1.5),
         Esecs=rng.uniform(-w, w), Esecg=rng.uniform(-w, w), Ethis=rng.uniform(-w / 3, w / 3),
         Ethig=rng.uniform(-w / 3, w / 3))
+    # exact zeros are legal and typical (the defaults switch the higher partial waves off; a gluon-only or
+    # quark-only input): one or two groups are zeroed in a third of the draws
+    if rng.random() < 0.35:
+        groups = [('secs', 'secg'), ('this', 'thig'), ('secs', 'secg', 'this', 'thig'), ('Esecs', 'Esecg'), ('Ethis', 'Ethig'),
+                  ('Esecs', 'Esecg', 'Ethis', 'Ethig'), ('kaps',), ('ns',), ('Ens',), ('alps', 'alpg'), ('this',), ('secg',)]
+        for grp in rng.sample(groups, rng.choice([1, 1, 2])):
+            for k in grp:
+                d[k] = 0.0
+    return d
 
 
 def couplings(th, Q2):
@@ -446,11 +455,30 @@ def run(rep):
     # ---------------------------------------------------------------- 4. oracle streams (real code only)
     TOLREL, TOLS = 3e-4, 1e-4
 
+    other, _ = mk_theory(0, 'msbar', Q02=2.0)
+
+    def used_point(point):
+        """the DataPoint for an oracle evaluation: fresh, or (40%) one that another theory object has already
+        evaluated at other kinematics and that was then moved in place — the caller's point is only read"""
+        if rng.random() < 0.6:
+            rep.hist('oracle.point', 'fresh')
+            return g.DataPoint(point), point
+        rep.hist('oracle.point', 'reused after another theory / moved in place')
+        first = dict(x=min(0.5, point['x'] * rng.uniform(1.5, 4)), eta=0, t=0, Q2=rng.choice([2.0, 9.0]))
+        pt = g.DataPoint(first)
+        other.Hx(pt)
+        if rng.random() < 0.5:
+            other.Ex(pt)
+        for k, v in point.items():
+            setattr(pt, k, v)
+            pt[k] = v
+        return pt, dict(point, point_history='DataPoint(%r) evaluated with Hx of a p=0 msbar Q02=2 theory, then moved in place' % first)
+
     def input_scale_case(p, scheme, par, x, c, stream):
         th, kw = mk_theory(p, scheme, c=c)
         th.parameters.update(par)
-        point = dict(x=x, eta=0, t=0, Q2=th.Q02)
-        hx = th.Hx(g.DataPoint(point))
+        pt, point = used_point(dict(x=x, eta=0, t=0, Q2=th.Q02))
+        hx = th.Hx(pt)
         q, xg = closed_pdfs(par, x)
         sq, sg = contour_scale(par, x, c)
         eq, eg = abs(hx[0] - q), abs(hx[1] - xg)
@@ -514,7 +542,8 @@ def run(rep):
         x = 10 ** rng.uniform(-5, math.log10(0.3))
         Q2 = 4.0 * 10 ** rng.uniform(0, 2)
         f2 = float(th.DISF2(g.DataPoint({'xB': x, 'Q2': Q2})))
-        hx = th.Hx(g.DataPoint({'x': x, 'eta': 0, 't': 0, 'Q2': Q2}))
+        hpt, hpoint = used_point({'x': x, 'eta': 0, 't': 0, 'Q2': Q2})
+        hx = th.Hx(hpt)
         want = th.dis_charge * x * float(hx[0])
         gpd = np.einsum('fa,ja->jf', th.frot_j2x, th.H(0, 0))
         S = th.dis_charge * x * j2x_scale(th, x, 0, Q2, None, gpd, None)[0]
@@ -523,7 +552,7 @@ def run(rep):
         rep.case('oracle.F2-LO', (scheme, nf, x, Q2), sample=dict(theory=kw, x=x, Q2=Q2, F2=f2, charge_x_Sigma=want))
         if not d <= 1e-10 * abs(f2) + 1e-13 * S:
             viol('F2-LO/' + scheme, 'LO F2 = %.12g but dis_charge·x·Hx[0] = %.12g at x=%g, Q2=%g (nf=%d)' % (f2, want, x, Q2, nf),
-                 kw, par, dict(xB=x, x=x, eta=0, t=0, Q2=Q2), 'DISF2')
+                 kw, par, dict(hpoint, xB=x), 'DISF2')
 
     # 4d. momentum sum and LO DGLAP solution of the second moments; 4e. gluon-only input radiates quarks
     gl_u, gl_w = p_roots(32)
@@ -550,7 +579,7 @@ def run(rep):
         par = slim(random_pars(rng, al0g_max=1.3))
         gluon_only = (i % 4 == 2)
         if gluon_only:
-            par['ns'] = 1e-12
+            par['ns'] = 0.0 if i % 8 == 2 else 1e-12
         th.parameters.update(par)
         Q2 = 4.0 * 10 ** rng.uniform(0.2, 2)
         mq, mg = second_moments(th, Q2)
@@ -588,14 +617,14 @@ def run(rep):
                      kw, par, dict(n=2), 'Hx')
         if gluon_only:
             xs = 10 ** rng.uniform(-4, -1)
-            h1 = th.Hx(g.DataPoint({'x': xs, 'eta': 0, 't': 0, 'Q2': Q2}))
+            h1 = th.Hx(used_point({'x': xs, 'eta': 0, 't': 0, 'Q2': Q2})[0])
             h0 = th.Hx(g.DataPoint({'x': xs, 'eta': 0, 't': 0, 'Q2': th.Q02}))
             ratio = sdiv(xs * h1[0], h1[1])
             track('gluon-only: min xΣ/xg at Q2 (must be > 1e-3)', -ratio)
             rep.case('oracle.gluon-only', (p, scheme, xs, Q2), sample=dict(x=xs, Q2=Q2, Hx=list(map(float, h1)), Hx_input=list(map(float, h0)),
                                                                             quark_momentum=mq))
             if not (ratio > 1e-3 and mq > 1e-3 and abs(h0[0]) < 1e-6 * abs(h1[0])):
-                viol('gluon-only/p=%d/%s' % (p, scheme), 'gluon-only input (ns=1e-12) at Q2=%g: Hx = %s (input scale: %s), quark '
+                viol('gluon-only/p=%d/%s' % (p, scheme), 'gluon-only input (ns <= 1e-12) at Q2=%g: Hx = %s (input scale: %s), quark '
                      'momentum %.3g — no quarks radiated' % (Q2, list(h1), list(h0), mq), kw, par,
                      dict(x=xs, eta=0, t=0, Q2=Q2), 'Hx')
 
